@@ -227,6 +227,8 @@ def check_case(griffe, taps, case: dict, base: str) -> dict:
 
 def _cell(c: dict) -> str:
     r = c["rk"] + ("".join(x for x, bit in (("d", c["rdoc"]), ("a", c["rann"]), ("o", c["rov"])) if bit) if c["rk"] in ("fun", "att", "cls") else "")
+    if c.get("rtg"):
+        r = "TC:" + r
     if c["rk"] == "cls":
         r += f"[{c['irk']}{'~' if c['ibare'] else ''}]"
     s = c["sk"] + ("".join(x for x, bit in (("d", c["sdoc"]), ("a", c["sann"]), ("r", c["sret"]), ("o", c["sov"])) if bit) if c["sk"] in ("fun", "att", "cls") else "")
